@@ -34,6 +34,7 @@ Types: value ts actor cluster dbv seq change changeset changev1 need state uni b
   rt  <type> <term>   → `ok <canonical term>`   (decode (encode v); maps sorted by key, last
                                                   duplicate wins, as `HashMap::insert` does)
   minbytes            → the `minimum_bytes_needed()` constants the reservation guards use
+  utf8 <hex>          → `ok true|false`: the model's `validUtf8` (real side: `str::from_utf8`)
 -/
 namespace Driver.C09
 open Corro.Pack
@@ -397,6 +398,9 @@ def runWire (toks : List String) : Option String :=
     | none => none
   | ["minbytes"] =>
     pure s!"ok change={changeMinBytes},need={syncNeedMinBytes},reqentry={requestEntryMinBytes}"
+  | ["utf8", h] => do
+    let bs ← hex? h
+    pure s!"ok {validUtf8 bs}"
   | _ => none
 
 abbrev State := Unit
